@@ -226,9 +226,13 @@ inductive TraceLabel where
   | start | before | iter (k : Nat) | «end»
   deriving DecidableEq, Repr
 
+/-- `trace_t`: append the labelled snapshot, or — with `reset=True` — replace the period's trace by it. -/
+def recordSnap {S} (reset : Bool) (l : List (TraceLabel × S)) (x : TraceLabel × S) : List (TraceLabel × S) :=
+  if reset then [x] else l ++ [x]
+
 /-- A tracer-extended model: the state gains the trace of the period being solved (a list of labelled
     snapshots); `snap u t` is the column `trace_t` extracts.  With `on = false` nothing is recorded. -/
-def traced {σ V S} (I : Interp σ V) (snap : σ → Int → S) (on : Bool) :
+def traced {σ V S} (I : Interp σ V) (snap : σ → Int → S) (on reset : Bool) :
     Interp (σ × List (TraceLabel × S)) V where
   lags := I.lags
   leads := I.leads
@@ -239,22 +243,23 @@ def traced {σ V S} (I : Interp σ V) (snap : σ → Int → S) (on : Bool) :
   copyOffset u t off := (I.copyOffset u.1 t off, u.2)
   before o u t :=
     match I.before o u.1 t with
-    | (u', true) => ((u', if on then u.2 ++ [(.before, snap u.1 t)] else u.2), true)
+    | (u', true) => ((u', if on then recordSnap reset u.2 (.before, snap u.1 t) else u.2), true)
     | (u', false) =>
-      ((u', if on then u.2 ++ [(.before, snap u.1 t), (.iter 0, snap u' t)] else u.2), false)
+      ((u', if on then recordSnap reset (recordSnap reset u.2 (.before, snap u.1 t)) (.iter 0, snap u' t) else u.2),
+       false)
   eval o u t k :=
     match I.eval o u.1 t k with
     | (u', true) => ((u', u.2), true)
-    | (u', false) => ((u', if on then u.2 ++ [(.iter k, snap u' t)] else u.2), false)
+    | (u', false) => ((u', if on then recordSnap reset u.2 (.iter k, snap u' t) else u.2), false)
   after o u t k :=
     match I.after o u.1 t k with
     | (u', true) => ((u', u.2), true)
-    | (u', false) => ((u', if on then u.2 ++ [(.«end», snap u' t)] else u.2), false)
+    | (u', false) => ((u', if on then recordSnap reset u.2 (.«end», snap u' t) else u.2), false)
 
 /-- `TracerMixin.solve_t`: the `start` snapshot, then the parent's `solve_t`. -/
-def tracedSolveT {σ V S} (I : Interp σ V) (snap : σ → Int → S) (on : Bool) (o : Opts) (n : Nat) (t : Int)
+def tracedSolveT {σ V S} (I : Interp σ V) (snap : σ → Int → S) (on reset : Bool) (o : Opts) (n : Nat) (t : Int)
     (w : World (σ × List (TraceLabel × S))) : World (σ × List (TraceLabel × S)) × Result :=
-  solveT (traced I snap on) o n t
-    (if on then withUser w (w.user.1, w.user.2 ++ [(.start, snap w.user.1 t)]) else w)
+  solveT (traced I snap on reset) o n t
+    (if on then withUser w (w.user.1, recordSnap reset w.user.2 (.start, snap w.user.1 t)) else w)
 
 end Fsic
